@@ -1,4 +1,4 @@
-import FindVerif.Theorems.C04
+import FindVerif.Theorems.C04Whole
 #print axioms FV.C04_literal_roundtrip
 #print axioms FV.C04_escape_injective
 #print axioms FV.C04_site_pool
@@ -7,3 +7,4 @@ import FindVerif.Theorems.C04
 #print axioms FV.C04_site_file
 #print axioms FV.C04_site_strftime
 #print axioms FV.C04_template_verbatim
+#print axioms FV.C04_whole_program
